@@ -10,6 +10,10 @@ import traceback
 from .core import Ctx, Inconclusive, load_repo, backend, unjz
 
 
+class WorkerDeadline(BaseException):
+    pass
+
+
 def main():
     ap = argparse.ArgumentParser()
     ap.add_argument("prop")
@@ -24,6 +28,18 @@ def main():
     ctx = Ctx(a.prop, a.tier, a.seed, a.shard, a.nshards)
     status = "ok"
     reach = None
+    # The driver's wall-clock watchdog kills a shard that never finishes - and with it everything the shard had already
+    # observed.  A little before that, the shard interrupts itself (SIGALRM raises in the main thread, re-armed every 2 s in
+    # case a broad `except` in a check swallows it), reports what it has (violations included) and says it did not finish.
+    deadline = int(os.environ.get("VP_DEADLINE_S", "0") or 0)
+    if deadline > 0:
+        import signal
+
+        def _on_alarm(signum, frame):
+            signal.alarm(2)
+            raise WorkerDeadline("shard reached its own deadline of %ds" % deadline)
+        signal.signal(signal.SIGALRM, _on_alarm)
+        signal.alarm(deadline)
     try:
         from . import inject as _inj
         _inj.EnvTaint.install()
@@ -45,9 +61,15 @@ def main():
             mod.run(ctx)
     except Inconclusive as e:
         ctx.note_inconclusive(str(e))
+    except WorkerDeadline as e:
+        ctx.note_inconclusive("%s (unfinished; %d adjudications so far)" % (e, sum(m["reached"] for m in ctx.monitors.values())))
     except BaseException as e:  # harness bug or monitor crash -> inconclusive, never 'held'
         status = "crashed"
         ctx.note_inconclusive("worker crashed: %s: %s\n%s" % (type(e).__name__, e, traceback.format_exc()[-1500:]))
+    if deadline > 0:
+        import signal
+        signal.alarm(0)
+        signal.signal(signal.SIGALRM, signal.SIG_IGN)
     if reach is not None:
         try:
             ctx.extra["functions_entered"] = reach.stop()
